@@ -1140,6 +1140,9 @@ func (c *fn) exprStmt(s *ast.ExprStmt, k kont) string {
 	if fi.cbPage != "" {
 		return c.callbackCall(s, call, fi, recv, nil, k)
 	}
+	if fi.walkEnt != "" {
+		return c.walkCall(s, call, fi, recv, nil, k)
+	}
 	if !fi.rebinds() {
 		if fi.oracle && !fi.drop {
 			// an oracle called for its effect: nothing of it would remain
@@ -1192,6 +1195,13 @@ func (c *fn) inoutCall(n ast.Node, call *ast.CallExpr, fi *fnInfo, recv ast.Expr
 			}
 			return nil
 		})
+	}
+	for i, p := range fi.params {
+		if p.consumed && i < len(args) {
+			if id := c.rootIdent(args[i]); id != nil {
+				c.requireDeadAfter(c.objOf(id), call, fi.label)
+			}
+		}
 	}
 	var all []ast.Expr
 	if fi.effect {
@@ -1372,6 +1382,25 @@ func (c *fn) msgOnlyVar(o types.Object) bool {
 		c.g.note(c.fi.label + ": the string " + o.Name() + " only ever becomes an error message or a log line: it holds the format of the message, not its text")
 	}
 	return c.msgOnly[o]
+}
+
+// requireDeadAfter: the variable o handed to a callee that consumes it is not mentioned after the call
+// (nor anywhere in a loop around the call that does not declare it).
+func (c *fn) requireDeadAfter(o types.Object, call *ast.CallExpr, callee string) {
+	if o == nil || c.decl == nil {
+		return
+	}
+	for _, l := range c.enclosingLoops(call) {
+		if !(o.Pos() >= l.Pos() && o.Pos() < l.End()) {
+			c.fail(call, "%s consumes its map argument %s, which outlives the loop around the call", callee, o.Name())
+		}
+	}
+	ast.Inspect(c.decl.Body, func(n ast.Node) bool {
+		if id, ok := n.(*ast.Ident); ok && id.Pos() >= call.End() && c.objOf(id) == o {
+			c.fail(id, "%s is used after it was handed to %s, which may have replaced the map (the caller's variable is not updated by Go)", o.Name(), callee)
+		}
+		return true
+	})
 }
 
 // lhsType: the type of an lvalue (nil for the blank identifier).
@@ -1605,6 +1634,12 @@ func (c *fn) assignStmt(s *ast.AssignStmt, k kont) string {
 						c.fail(s, "assignment shape of a callback call")
 					}
 					return c.callbackCall(s, call, fi, recv, s.Lhs[0], k)
+				}
+				if fi, _, recv := c.calleeInfo(call); fi != nil && fi.walkEnt != "" {
+					if len(s.Lhs) != 1 {
+						c.fail(s, "assignment shape of a walk call")
+					}
+					return c.walkCall(s, call, fi, recv, s.Lhs[0], k)
 				}
 				if fi, _, recv := c.calleeInfo(call); fi != nil && fi.rebinds() {
 					return c.inoutCall(s, call, fi, recv, s.Lhs, k)
@@ -1882,6 +1917,10 @@ func (c *fn) checkOwnedMap(m ast.Expr) {
 				return // the holder is returned to the caller with the new map
 			}
 		}
+		if c.ownedWrites()[unparen(m)] {
+			c.g.note(c.fi.label + ": the map in field " + x.Sel.Name + " is written where, on every path, it was created in this function (path-sensitive ownership)")
+			return
+		}
 		c.fail(m, "write to the map in field %s whose holder or map was not created in this function", x.Sel.Name)
 	}
 	c.fail(m, "write to a map reached through %T", m)
@@ -2013,6 +2052,107 @@ func (c *fn) typeSwitchStmt(s *ast.TypeSwitchStmt, k kont) string {
 			return c.stmt(s.Init, core)
 		}
 		return core()
+	})
+}
+
+// walkCall translates `err = fs.WalkDir(.., root, func(path, d, err) error { BODY })` for an oracle
+// declared with Walk: the literal becomes a function of its state (the variables it assigns) and its
+// three parameters, GoLib's walk_dir runs it over the tree the oracle supplies.
+func (c *fn) walkCall(n ast.Node, call *ast.CallExpr, fi *fnInfo, recv ast.Expr, lhs ast.Expr, k kont) string {
+	args := call.Args
+	if recv != nil {
+		args = append([]ast.Expr{recv}, args...)
+	}
+	var lit *ast.FuncLit
+	var rootArg ast.Expr
+	for i, p := range fi.params {
+		if i >= len(args) {
+			break
+		}
+		if p.callback {
+			lit, _ = unparen(args[i]).(*ast.FuncLit)
+		}
+		if p.obj != nil && p.obj.Name() == "root" {
+			rootArg = args[i]
+		}
+	}
+	if lit == nil {
+		c.fail(n, "the callback argument of %s must be a function literal", fi.label)
+	}
+	if rootArg == nil {
+		c.fail(n, "Walk: %s has no parameter named root", fi.label)
+	}
+	if c.noEffect > 0 || len(c.cbRet) > 0 {
+		c.fail(n, "a walk inside a function literal")
+	}
+	var state []*types.Var
+	for _, o := range c.assignedIn(lit) {
+		v, ok := o.(*types.Var)
+		if !ok || (c.worldObj != nil && v == c.worldObj) {
+			c.fail(lit, "the walk callback changes %s, which cannot be threaded as its state", o.Name())
+		}
+		state = append(state, v)
+	}
+	var errObj types.Object
+	if lhs != nil {
+		if id, ok := unparen(lhs).(*ast.Ident); ok && id.Name != "_" {
+			errObj = c.objOf(id)
+			if errObj == nil || !c.isLocal(errObj) || c.g.kind(errObj.Type(), c.sub) != kError {
+				c.fail(lhs, "the result of a walk must be assigned to a local error variable")
+			}
+		} else if !ok {
+			c.fail(lhs, "the result of a walk must be assigned to a local error variable")
+		}
+	}
+	for _, o := range state {
+		if types.Object(o) == errObj {
+			c.fail(lit, "the walk callback assigns the variable that receives the result of the walk")
+		}
+	}
+	if !c.partial {
+		panic(needPartial{}) // the callback may panic (d is nil when the root cannot be examined)
+	}
+	c.litState, c.litForceOpt = state, true
+	fnTerm, _ := c.funcLit(lit)
+	// the state as one value
+	var stTypes, stNames []string
+	for _, o := range state {
+		stTypes = append(stTypes, c.varType(o))
+		stNames = append(stNames, c.nameOf(o))
+	}
+	ent := fi.walkEnt
+	fn := fnTerm.s
+	stInit := "tt"
+	switch len(state) {
+	case 0:
+		fn = "(fun (_ : unit) (p'w : string) (d'w : (ptr " + ent + ")) (e'w : (option err)) => match " + fnTerm.s + " p'w d'w e'w with Some r'w => Some (tt, r'w) | None => None end)"
+	case 1:
+		stInit = stNames[0]
+	default:
+		stInit = "(" + strings.Join(stNames, ", ") + ")"
+		fn = "(fun (st'w : (" + strings.Join(stTypes, " * ") + ")) (p'w : string) (d'w : (ptr " + ent + ")) (e'w : (option err)) => let '(" + strings.Join(stNames, ", ") + ") := st'w in " + fnTerm.s + " " + strings.Join(stNames, " ") + " p'w d'w e'w)"
+	}
+	root := c.expr(rootArg)
+	tree := c.call(call)
+	return c.bindAll([]cx{root, tree}, "w", func(vs []string) string {
+		res := cx{s: "(walk_dir " + fn + " " + vs[0] + " " + vs[1] + " " + stInit + ")", opt: true}
+		return c.bind(res, "t", func(tv string) string {
+			r := c.fresh("werr")
+			pats := append(append([]string{}, stNames...), r)
+			if len(state) == 0 {
+				pats = []string{"_", r}
+			}
+			for _, o := range state {
+				delete(c.views, o)
+			}
+			out := "let '(" + strings.Join(pats, ", ") + ") := " + tv + " in "
+			if errObj != nil {
+				delete(c.views, errObj)
+				delete(c.nonNilErr, errObj)
+				return out + c.letVar(errObj, r) + k()
+			}
+			return out + k()
+		})
 	})
 }
 
